@@ -23,6 +23,7 @@ from .frontend import load_sources
 
 ALL = [f"C{i:02d}" for i in range(1, 21)]
 MODS = ["gmm", "kmeans", "utils", "linear_scoring", "factor_analysis", "ivector", "wccn", "whitening"]
+FN_OF = {}
 SWAP_BIN = {ast.Add: ast.Sub, ast.Sub: ast.Add, ast.Mult: ast.Div, ast.Div: ast.Mult}
 SWAP_CMP = {ast.Lt: ast.LtE, ast.LtE: ast.Lt, ast.Gt: ast.GtE, ast.GtE: ast.Gt, ast.Eq: ast.NotEq, ast.NotEq: ast.Eq, ast.Is: ast.IsNot, ast.IsNot: ast.Is}
 
@@ -37,6 +38,8 @@ def sites(tree):
     for fn in ast.walk(tree):
         if not isinstance(fn, ast.FunctionDef):
             continue
+        for node in ast.walk(fn):
+            FN_OF.setdefault(node._fz, fn.name)
         for node in ast.walk(fn):
             if isinstance(node, ast.BinOp) and type(node.op) in SWAP_BIN:
                 out.append(("binop", node._fz))
@@ -148,10 +151,13 @@ def main():
     rnd = random.Random(seed)
     base = {m: ast.unparse(ast.parse(s)) for m, s in load_sources().items()}
     allsites = []
+    fn_of = {}
     for mod in MODS:
         tree = ast.parse(base[mod])
+        FN_OF.clear()
         for kind, t in sites(tree):
             allsites.append((mod, kind, t))
+        fn_of[mod] = dict(FN_OF)
     rnd.shuffle(allsites)
     tasks = []
     for mod, kind, t in allsites:
@@ -160,7 +166,7 @@ def main():
         text, descr = make_mutant(base[mod], kind, t)
         if text is None or text == base[mod]:
             continue
-        tasks.append((len(tasks), mod, text, f"[{kind}] {descr}"))
+        tasks.append((len(tasks), mod, text, f"[{kind}] in {fn_of[mod].get(t, '?')}: {descr}"))
     res = []
     with ProcessPoolExecutor(max_workers=16, initializer=_init, initargs=(base,)) as ex:
         for r in ex.map(_run, tasks, chunksize=2):
